@@ -225,9 +225,12 @@ def r10_5(ctx, rr):
         if n.get("k") == "If" and diverges(F, n["th"]) and not is_debug_only(F, n):
             for a in cond_atoms(T, n["c"], False):
                 if a[0] == "le" and mentions(a[1], lambda x: x == mk_op("/", mk_op("*", gi, ("field", gs, "bit_width")), ("int", 8))):
-                    ok = True
+                    # the bytes read are those of one word of *this* vector: `+ W::BYTES` (no literal), against
+                    # `backend words * W::BYTES`
+                    is_bytes = lambda x: x[0] == "def" and x[1].endswith("BYTES")
+                    ok = a[3] == 0 and mentions(a[1], is_bytes) and mentions(a[2], is_bytes)
     rr.instances += 1
-    rr.check(ok, "get_unaligned:bound-in-bytes", "get_unaligned must check `index * bit_width / 8 + W::BYTES <= backend bytes` with the same byte offset the read uses", g.span)
+    rr.check(ok, "get_unaligned:bound-in-bytes", "get_unaligned must check `index * bit_width / 8 + W::BYTES <= backend words * W::BYTES`: the same byte offset the read uses and the size of one word of this vector's type (a literal is right for one word type only)", g.span)
     # new_unaligned pads one word (R11.4) and the admissible widths are asserted
     rr.instances += 1
     asserts = [show(F, n["c"]) for n in walk(g.body) if n.get("k") == "If" and diverges(F, n["th"]) and not is_debug_only(F, n)]
@@ -498,3 +501,65 @@ def r14_4(ctx, rr):
         rr.ob(ok, key="apply_in_place_unchecked:last-word-keeps-tail", sample={"store": show(F, n)[:80], "value": why})
         if not ok:
             rr.violate("apply_in_place_unchecked:last-word-keeps-tail", "apply_in_place_unchecked overwrites the last word with `%s`: the bits of that word after the last element (storage outside the logical contents) are not preserved; expected `write_buffer | (old & (MAX << (len * bit_width %% BITS)))`" % why, F.loc(n))
+
+
+@rule("R10.8", props=["C10"], floor=2, title="copy: in the multi-word branches the loop over the middle words covers exactly the destination words between the first and the last one")
+def r10_8(ctx, rr):
+    """A multi-word branch writes dest[F] (first word), dest[F + i] for i in lo..hi (middle words) and dest[L]
+    (last word). Every word from F to L is written exactly when lo == 1 and F + hi == L: a loop bounded by the
+    span of the *source* skips a destination word whenever the destination range touches one more word."""
+    F = ctx.F()
+    b = F.one(r"^<bits::bit_field_vec::BitFieldVec<W, B> as traits::bit_field_slice::BitFieldSliceMut<W>>::copy$")
+    P = [("var", p["name"], p["id"]) for p in b.params]
+    slf, frm, dst, to, ln = P
+    dst_be = ("field", dst, "bits")
+    stores = []
+
+    def on_node(W, n, K):
+        if n.get("k") in ("Assign", "AssignOp") and n["l"].get("k") == "Index" and W.T.term(n["l"]["e"]) == dst_be:
+            stores.append((n, W.T.term(n["l"]["i"]), W.expand(W.T.term(n["l"]["i"])), K.copy()))
+    Walker(F, b, on_node=on_node).run()
+    pm = {id(n): ps for n, ps in walk_with_parents(b.body)}
+    # group the stores by the innermost `if`-chain branch they belong to (the block that is a branch of an If)
+    groups = {}
+    for n, raw, t, K in stores:
+        brs = [p for p in pm[id(n)] if p.get("k") == "Block" and any(q.get("k") == "If" and (q["th"] is p or q.get("el") is p) for q in pm[id(n)])]
+        if not brs:
+            continue
+        # the outermost branch block below the if/else-if chain that is not itself just an else-if wrapper
+        cand = [p for p in brs if not (len(p["stmts"]) == 0 and p.get("expr", {}).get("k") == "If")]
+        groups.setdefault(id(cand[0]) if cand else id(brs[0]), []).append((n, raw, t, K))
+    n_loops = 0
+    for gid, sts in groups.items():
+        in_loop = [(n, raw, t, K) for n, raw, t, K in sts if any(p.get("k") == "Loop" for p in pm[id(n)] if id(p) != gid and any(x is p for x in walk([q for q in pm[id(n)] if id(q) == gid][0])))]
+        if not in_loop:
+            continue
+        flat = [(n, raw, t, K) for n, raw, t, K in sts if (n, raw, t, K) not in in_loop]
+        flat_idx = []
+        for _, _, t, _ in flat:
+            if t not in flat_idx and not (t[0] == "struct"):
+                flat_idx.append(t)
+        for n, raw, t, K in in_loop:
+            n_loops += 1
+            rr.instances += 1
+            ok = False
+            why = "index %s" % tshow(t)[:80]
+            # t = Fst + i with i bounded by the loop
+            if t[0] == "op" and t[1] == "+":
+                for base, iv in ((t[2], t[3]), (t[3], t[2])):
+                    if iv[0] != "var" or base not in flat_idx:
+                        continue
+                    others = [x for x in flat_idx if x != base]
+                    los = [a for a in K.atoms if a[0] == "le" and a[2] == iv and a[1][0] in ("int", "zero")]
+                    his = [a for a in K.atoms if a[0] == "le" and a[1] == iv and a[3] <= -1]
+                    lo_ok = K.entails(atom_le(("int", 1), iv))
+                    hi_ok = any(mk_op("+", base, a[2]) == L or a[2] == mk_op("-", L, base) or K.entails(atom_le(mk_op("+", base, iv), L, True)) and not K.entails(atom_le(mk_op("+", base, iv), L, False)) is None for a in his for L in others)
+                    exact = any(a[2] == mk_op("-", L, base) and a[3] == -1 for a in his for L in others)
+                    ok = lo_ok and exact
+                    why = "first word %s, loop variable bounded by %s, last word(s) %s" % (tshow(base)[:60], [tshow(a[2])[:60] for a in his], [tshow(x)[:60] for x in others])
+            key = "BitFieldVec::copy:middle-words-cover-destination"
+            rr.ob(ok, key=key + str(n_loops))
+            if not ok:
+                rr.violate(key, "copy: the loop storing `%s` does not range over 1 .. (last destination word - first destination word): %s; a destination word between the first and the last is never written when the destination range touches one more word than the source range" % (show(F, n)[:80], why), F.loc(n))
+    if n_loops < 2:
+        raise AnchorMissing("copy: expected the two middle-word loops of the misaligned multi-word branches, found %d" % n_loops)
